@@ -172,6 +172,7 @@ def write_evidence(prop, tier, seed, total, wall, workers, m, audit,
         "runs_per_hour": round(runs / wall * 3600) if wall else 0,
         "seeds_per_hour": round(runs / wall * 3600) if wall else 0,
         "workers": workers,
+        "workers_with_python_optimize": total.get("workers_with_python_optimize", 0),
         "simulated_time_s": round(total["sim_seconds"], 3),
         "simulated_time_note": "sum over runs of the span of the simulated "
         "clock; nothing in soundevent waits on a timer, the clock only feeds "
